@@ -1058,4 +1058,238 @@ theorem normalizeList_error (l : List Stmt) :
       · exact .inl ⟨rfl, by simp [anyLoopInPar, hl]⟩
       · exact .inr ⟨rfl, by simp [anySubInPar, hs]⟩
 
+/-! ## order inside a time step -/
+
+/-- the part of a schedule that happens at step `k`, in program order -/
+def atStep (k : Nat) (l : List (Nat × Nat)) : List (Nat × Nat) := l.filter (fun p => p.2 == k)
+
+theorem atStep_append (k : Nat) (a b : List (Nat × Nat)) :
+    atStep k (a ++ b) = atStep k a ++ atStep k b := by simp [atStep]
+
+theorem atStep_comm {k t : Nat} {A B : List (Nat × Nat)} (hA : ∀ p ∈ A, p.2 = t) (hB : ∀ p ∈ B, t < p.2) :
+    atStep k A ++ atStep k B = atStep k B ++ atStep k A := by
+  by_cases hk : k = t
+  · have : atStep k B = [] := by
+      simp only [atStep, List.filter_eq_nil_iff]
+      intro p hp; have := hB p hp; simp; omega
+    simp [this]
+  · have : atStep k A = [] := by
+      simp only [atStep, List.filter_eq_nil_iff]
+      intro p hp; have := hA p hp; simp; omega
+    simp [this]
+
+/-- `x` occupies exactly the step it starts at -/
+def OneStep (x : Stmt) : Prop := dur x = 1 ∧ ∀ t, ∀ p ∈ times t x, p.2 = t
+
+theorem timesPar_oneStep {r : List Stmt} (h : ∀ x ∈ r, OneStep x) (t : Nat) : ∀ p ∈ timesPar t r, p.2 = t := by
+  induction r with
+  | nil => simp [timesPar]
+  | cons x xs ih =>
+    intro p hp
+    simp only [timesPar, List.mem_append] at hp
+    rcases hp with hp | hp
+    · exact (h x (by simp)).2 t p hp
+    · exact ih (fun y hy => h y (by simp [hy])) p hp
+
+theorem timesSeq_oneStep {l : List Stmt} (h : ∀ x ∈ l, OneStep x) (t : Nat) : ∀ p ∈ timesSeq t l, t ≤ p.2 := by
+  induction l generalizing t with
+  | nil => simp [timesSeq]
+  | cons x xs ih =>
+    intro p hp
+    simp only [timesSeq, List.mem_append] at hp
+    rcases hp with hp | hp
+    · exact Nat.le_of_eq ((h x (by simp)).2 t p hp).symm
+    · have := ih (fun y hy => h y (by simp [hy])) _ p hp; omega
+
+theorem unit_oneStep {x} (hf : isFlatItem x = true) (hc : chunkable x = true) : OneStep x := by
+  refine ⟨(unit_facts hf hc).1, ?_⟩
+  cases x with
+  | gate i => intro t p hp; simp [times] at hp; simp [hp]
+  | loop n b => simp [chunkable] at hc
+  | block par sub it body =>
+    simp [chunkable] at hc; subst hc
+    cases sub with
+    | true => simp [isFlatItem] at hf
+    | false =>
+      simp [isFlatItem] at hf
+      intro t
+      simp only [times, if_true]
+      apply timesPar_oneStep
+      intro y hy
+      have := hf.1.2 y hy
+      cases y <;> simp [isGate] at this
+      exact ⟨rfl, fun t p hp => by simp [times] at hp; simp [hp]⟩
+
+theorem zipCons_atStep (k t : Nat) (l : List Stmt) (rows : List (List Stmt))
+    (hl : ∀ x ∈ l, OneStep x) (hr : ∀ r ∈ rows, ∀ x ∈ r, OneStep x) :
+    atStep k (rowTimes t (zipCons l rows)) = atStep k (timesSeq t l) ++ atStep k (rowTimes t rows) := by
+  induction l generalizing t rows with
+  | nil => simp [zipCons, timesSeq, atStep]
+  | cons a as ih =>
+    have ha : dur a = 1 := (hl a (by simp)).1
+    have has : ∀ x ∈ as, OneStep x := fun y hy => hl y (by simp [hy])
+    cases rows with
+    | nil =>
+      simp only [zipCons, rowTimes, timesPar, timesSeq, ha, List.append_nil, atStep_append]
+      have := ih (t + 1) [] has (by simp)
+      simp only [rowTimes, atStep, List.filter_nil, List.append_nil] at this
+      simp only [atStep, this, List.filter_nil, List.append_nil]
+    | cons r rs =>
+      simp only [zipCons, rowTimes, timesPar, timesSeq, ha, atStep_append]
+      rw [ih (t + 1) rs has (fun r' hr' => hr r' (by simp [hr']))]
+      have hcomm := atStep_comm (k := k) (timesPar_oneStep (hr r (by simp)) t)
+        (fun p hp => Nat.lt_of_succ_le (timesSeq_oneStep has (t + 1) p hp))
+      simp only [List.append_assoc]
+      rw [← List.append_assoc (atStep k (timesPar t r)), hcomm, List.append_assoc]
+
+theorem zipLongest_atStep (k t : Nat) (S : List (List Stmt)) (h : ∀ l ∈ S, ∀ x ∈ l, OneStep x) :
+    atStep k (rowTimes t (zipLongest S)) = atStep k (S.flatMap (timesSeq t)) := by
+  induction S with
+  | nil => simp [zipLongest, rowTimes]
+  | cons l ls ih =>
+    have hls : ∀ l' ∈ ls, ∀ x ∈ l', OneStep x := fun l' hl' => h l' (by simp [hl'])
+    simp only [zipLongest, List.flatMap_cons, atStep_append]
+    rw [zipCons_atStep k t l _ (h l (by simp)) (zipLongest_forall ls hls), ih hls]
+
+theorem par_step_atStep {vs chunks} (hnf : ∀ v ∈ vs, isNF v = true) (hc : chunkBlocks vs = .ok chunks)
+    (k t : Nat) : atStep k (timesSeq t (chunks.map emit)) = atStep k (timesPar t vs) := by
+  obtain ⟨_, _, _, _, hch⟩ := par_step hnf hc
+  unfold chunkBlocks at hc
+  obtain ⟨hrows, rfl⟩ := chunkRows_ok hc
+  have hS : ∀ l ∈ vs.map unroll, ∀ x ∈ l, OneStep x := by
+    intro l hl x hx
+    obtain ⟨v, hv, rfl⟩ := List.mem_map.1 hl
+    exact unit_oneStep ((isFlatList_iff _).1 (unroll_flat (hnf v hv)) x hx) (hch v hv x hx)
+  have hR := zipLongest_forall _ hS
+  have hne := zipLongest_ne_nil (vs.map unroll)
+  have hdurR : ∀ r ∈ zipLongest (vs.map unroll), durMax r = 1 :=
+    fun r hr => durMax_eq_one (hne r hr) (fun x hx => (hR r hr x hx).1)
+  rw [(timesSeq_emit_rows t _ hrows hdurR).1, timesPar_eq_flatMap]
+  exact zipLongest_atStep k t _ hS
+
+theorem normalize_atStep :
+    (∀ s v, normalize s = .ok v → ∀ k t, atStep k (times t v) = atStep k (times t s)) ∧
+    (∀ l vs, normalizeList l = .ok vs →
+      (∀ k t, atStep k (timesSeq t vs) = atStep k (timesSeq t l)) ∧
+      (∀ k t, atStep k (timesPar t vs) = atStep k (timesPar t l))) := by
+  apply normalize_ok_rec
+  · intro i k t; rfl
+  · intro n b k t; rfl
+  · intro sub it body vs _ ⟨hseq, _⟩ k t
+    simp only [times, Bool.false_eq_true, if_false, timesSeq_unrollAll]; exact hseq k t
+  · intro sub it body vs chunks hvs ⟨_, hpar⟩ hc k t
+    simp only [times, Bool.false_eq_true, if_false, if_true]
+    rw [par_step_atStep (normalize_inv.2 body vs hvs).1 hc, hpar]
+  · exact ⟨fun _ _ => rfl, fun _ _ => rfl⟩
+  · intro s ss v vs hv _ ht ⟨hseq, hpar⟩
+    have hd := (normalize_inv.1 s v hv).2.1
+    exact ⟨fun k t => by simp only [timesSeq, atStep_append, hd, ht, hseq],
+      fun k t => by simp only [timesPar, atStep_append, ht, hpar]⟩
+
+/-! ## subcircuit blocks keep their time slot -/
+
+theorem slotsSeq_append (t : Nat) (a b : List Stmt) :
+    slotsSeq t (a ++ b) = slotsSeq t a ++ slotsSeq (t + durSum a) b := by
+  induction a generalizing t with
+  | nil => simp [slotsSeq, durSum]
+  | cons x xs ih => simp [slotsSeq, durSum, ih, Nat.add_assoc]
+
+theorem slotsSeq_unroll (t : Nat) (v : Stmt) (h : isNF v = true) : slotsSeq t (unroll v) = slots t v := by
+  cases v with
+  | gate i => simp [unroll, slotsSeq]
+  | loop n b => simp [unroll, slotsSeq]
+  | block par sub it body =>
+    simp [isNF] at h; obtain ⟨rfl, _⟩ := h
+    cases sub <;> simp [unroll, slotsSeq, slots]
+
+theorem slotsSeq_unrollAll (t : Nat) (vs : List Stmt) (h : ∀ v ∈ vs, isNF v = true) :
+    slotsSeq t (unrollAll vs) = slotsSeq t vs := by
+  induction vs generalizing t with
+  | nil => simp [unrollAll]
+  | cons v vs ih =>
+    simp [unrollAll, slotsSeq_append, slotsSeq, slotsSeq_unroll t v (h v (by simp)), durSum_unroll,
+      ih _ (fun v' hv' => h v' (by simp [hv']))]
+
+theorem slotsSeq_nil_of {l : List Stmt} (h : ∀ x ∈ l, ∀ t, slots t x = []) (t : Nat) : slotsSeq t l = [] := by
+  induction l generalizing t with
+  | nil => simp [slotsSeq]
+  | cons y ys ih => simp [slotsSeq, h y (by simp), ih (fun z hz => h z (by simp [hz]))]
+
+theorem slotsPar_nil_of {l : List Stmt} (h : ∀ x ∈ l, ∀ t, slots t x = []) (t : Nat) : slotsPar t l = [] := by
+  induction l with
+  | nil => simp [slotsPar]
+  | cons y ys ih => simp [slotsPar, h y (by simp), ih (fun z hz => h z (by simp [hz]))]
+
+theorem allGates_slots {l : List Stmt} (h : l.all isGate = true) : ∀ x ∈ l, ∀ t, slots t x = [] := by
+  intro x hx t
+  have := List.all_eq_true.1 h x hx
+  cases x <;> simp [isGate] at this
+  simp [slots]
+
+theorem unit_slots {x} (hf : isFlatItem x = true) (hc : chunkable x = true) (t : Nat) : slots t x = [] := by
+  cases x with
+  | gate i => simp [slots]
+  | loop n b => simp [chunkable] at hc
+  | block par sub it body =>
+    simp [chunkable] at hc; subst hc
+    cases sub with
+    | true => simp [isFlatItem] at hf
+    | false =>
+      simp [isFlatItem] at hf
+      have hg' : body.all isGate = true := by simpa using hf.1.2
+      simp [slots, slotsPar_nil_of (allGates_slots hg')]
+
+theorem emit_gates_slots {c : List Stmt} (hg : c.all isGate = true) (t : Nat) : slots t (emit c) = [] := by
+  match c, hg with
+  | [], _ => simp [emit, slots, slotsPar]
+  | [s], hg =>
+    cases s <;> simp [isGate] at hg
+    simp [emit, slots]
+  | s :: s' :: r, hg => simp only [emit, slots]; simp [slotsPar_nil_of (allGates_slots hg)]
+
+theorem par_step_slots {vs chunks} (hnf : ∀ v ∈ vs, isNF v = true) (hc : chunkBlocks vs = .ok chunks)
+    (t : Nat) : slotsSeq t (chunks.map emit) = [] ∧ slotsPar t vs = [] := by
+  obtain ⟨_, _, _, _, hch⟩ := par_step hnf hc
+  unfold chunkBlocks at hc
+  obtain ⟨hrows, rfl⟩ := chunkRows_ok hc
+  have hS : ∀ l ∈ vs.map unroll, ∀ x ∈ l, isFlatItem x = true ∧ chunkable x = true := by
+    intro l hl x hx
+    obtain ⟨v, hv, rfl⟩ := List.mem_map.1 hl
+    exact ⟨(isFlatList_iff _).1 (unroll_flat (hnf v hv)) x hx, hch v hv x hx⟩
+  have hR := zipLongest_forall (P := fun x => isFlatItem x = true ∧ chunkable x = true) _ hS
+  have hne := zipLongest_ne_nil (vs.map unroll)
+  constructor
+  · apply slotsSeq_nil_of
+    intro y hy t'
+    simp only [List.map_map, List.mem_map, Function.comp] at hy
+    obtain ⟨r, hr, rfl⟩ := hy
+    exact emit_gates_slots (flatMap_cells_gates (hR r hr) (hne r hr)).1 t'
+  · apply slotsPar_nil_of
+    intro v hv t'
+    rw [← slotsSeq_unroll t' v (hnf v hv)]
+    apply slotsSeq_nil_of
+    intro x hx t''
+    have hl : unroll v ∈ vs.map unroll := List.mem_map.2 ⟨v, hv, rfl⟩
+    exact unit_slots (hS _ hl x hx).1 (hS _ hl x hx).2 t''
+
+theorem normalize_slots :
+    (∀ s v, normalize s = .ok v → ∀ t, slots t v = slots t s) ∧
+    (∀ l vs, normalizeList l = .ok vs →
+      (∀ t, slotsSeq t vs = slotsSeq t l) ∧ (∀ t, slotsPar t vs = slotsPar t l)) := by
+  apply normalize_ok_rec
+  · intro i t; rfl
+  · intro n b t; rfl
+  · intro sub it body vs hvs ⟨hseq, _⟩ t
+    obtain ⟨hnf, hsum, _⟩ := normalize_inv.2 body vs hvs
+    simp only [slots, Bool.false_eq_true, if_false, slotsSeq_unrollAll _ _ hnf, durSum_unrollAll, hsum, hseq]
+  · intro sub it body vs chunks hvs ⟨_, hpar⟩ hc t
+    obtain ⟨hnf, _, hmax, _⟩ := normalize_inv.2 body vs hvs
+    obtain ⟨_, h2, _⟩ := par_step hnf hc
+    obtain ⟨h5, h6⟩ := par_step_slots hnf hc t
+    simp only [slots, Bool.false_eq_true, if_false, if_true, h2, hmax, h5, ← hpar, h6]
+  · exact ⟨fun _ => rfl, fun _ => rfl⟩
+  · intro s ss v vs hv _ ht ⟨hseq, hpar⟩
+    have hd := (normalize_inv.1 s v hv).2.1
+    exact ⟨fun t => by simp only [slotsSeq, hd, ht, hseq], fun t => by simp only [slotsPar, ht, hpar]⟩
+
 end Jaqal.UnitTiming
